@@ -9,7 +9,7 @@ V = os.path.dirname(os.path.dirname(os.path.abspath(__file__)))
 module, ns, world = sys.argv[1], sys.argv[2], sys.argv[3]
 src = open(os.path.join(V, "lean", module.replace(".", "/") + ".lean")).read()
 P = json.load(open(os.path.join(V, "props.json")))
-SUFFIX = r"(_refines_of_le|_general_of_le|_anyorder_of_le|_disciplined|_sequence_refines|_runWithDefers|_blocks|_labels|_of_le_val|_one_go|_clamp_first|_tasks_cap|_spawnLoop|_body)$"
+SUFFIX = r"(_refines_of_le|_general_of_le|_anyorder_of_le|_disciplined|_sequence_refines|_runWithDefers|_blocks|_labels|_of_le_val|_one_go|_clamp_first|_tasks_cap|_spawnLoop|_body|_matches_init|_over_interpreted_\w+|_eq_runNode)$"
 names = [n for n in re.findall(r"^theorem (\w+)\b", src, re.M) if re.search(SUFFIX, n)]
 ties = sorted({t["name"].split(".")[-1] for p in P for t in P[p]["theorems"] if t["name"].startswith("Flyt.Tie.")}, key=len, reverse=True)
 added = {}
@@ -17,18 +17,22 @@ for p in P:
     P[p]["theorems"] = [t for t in P[p]["theorems"] if t["module"] != module]
 for n in names:
     func = next((f for f in ties if n == f or n.startswith(f + "_")), None)
-    if func is None:
-        alias = {"Submit_labels": "WorkerPool_Submit", "Wait_labels": "WorkerPool_Wait", "Close_labels": "WorkerPool_Close",
-                 "worker_labels": "WorkerPool_worker", "worker_iteration_labels": "WorkerPool_worker", "wrapper_labels": "WorkerPool_Submit"}
-        func = alias.get(n)
-    if func is None:
+    alias = {"Submit_labels": "WorkerPool_Submit", "Wait_labels": "WorkerPool_Wait", "Close_labels": "WorkerPool_Close",
+             "worker_labels": "WorkerPool_worker", "worker_iteration_labels": "WorkerPool_worker", "wrapper_labels": "WorkerPool_Submit",
+             "deepRun_eq_runNode": "Run Flow_Exec", "FlowExec_over_interpreted_leaves": "Flow_Exec Run",
+             "Run_over_interpreted_FlowExec": "Run Flow_Exec", "Run_over_interpreted_FlowExec_over_leaves": "Run Flow_Exec",
+             "runBatchSequential_over_interpreted_items": "runBatchSequential runExecWithRetries",
+             "runBatch_over_interpreted_sequential": "runBatch runBatchSequential runExecWithRetries",
+             "runBatchConcurrent_serial_over_interpreted_items": "runBatchConcurrent runExecWithRetries"}
+    funcs = alias[n].split() if n in alias else ([func] if func else [])
+    if not funcs:
         print("no Tie obligation matches", n, "(not registered)")
         continue
-    tie = "Flyt.Tie." + func
-    owners = [p for p in P if any(t["name"] == tie for t in P[p]["theorems"])]
+    owners = [p for p in P if any(t["name"] in ["Flyt.Tie." + f for f in funcs] for t in P[p]["theorems"])]
+    func = funcs[0]
     doc = ("**Source refinement.** About the GoIR interpretation of the translated source of `%s` (Expected.IR, tied to the current source "
            "by `Tie.%s`) in %s: it computes exactly what the hand-written model says, for ALL inputs and every sufficient fuel "
-           "(statement: `%s.%s`)." % (func.replace("_", "."), func, world, ns, n))
+           "(statement: `%s.%s`)." % (" / ".join(f.replace("_", ".") for f in funcs), "` / `Tie.".join(funcs), world, ns, n))
     for p in owners:
         P[p]["theorems"].append({"module": module, "name": ns + "." + n, "doc": doc})
         added[p] = added.get(p, 0) + 1
